@@ -96,6 +96,17 @@ CHECKS = {
         note=TB + " Euclidean norm axioms: non-negative, |x_i| <= |x|, |x| = 0 => x = 0; homogeneity is cited, not used.",
         technique="contract-based deductive verification: AST->VC symbolic execution of the real closures, z3",
     ),
+    "C16": dict(
+        text=("One call of each real update function as a transition contract (closed forms over a history follow by induction "
+              "on the call): OGD and diagonal AdaGrad init/update for symbolic dimension; the four sketched methods for symbolic "
+              "dimension and sketch size: the decomposed matrix is [P[r]*e[r] ; per-algorithm-scaled gradient in the LAST row], "
+              "e'^2 = (s-rho)(s+rho) >= 0 with e'[-1] = 0, alpha' = alpha + f*rho^2 with f = 1 / 1/2 / 0 / 0; the update formula "
+              "P'(inv_s o P g) + inv_alpha (g - P'P g) (Ada-FD: its own form) with safe inversion as a polynomial identity at size "
+              "(2,3) with symbolic entries. svd is an opaque sorted decomposition."),
+        design="7/C16",
+        note=TB + " Real arithmetic: rsqrt(0) and inf*0 are not modelled (a float-only difference would not be seen).",
+        technique="contract-based deductive verification: transition contract of one update call, AST->VC, z3",
+    ),
 }
 
 NA_REASON = "check not built yet (build in progress); the planned contract kernel is described in DESIGN.md section 7"
